@@ -15,4 +15,8 @@ theorem v30 : GenV30.pkg_inits = [] ∧ GenV30.pkg_build_tags = [] ∧ GenV30.pk
 /-- … and the set of package-level variables is exactly the documented one (error sentinels, immutable tables, v2's pool) -/
 theorem vars30 : GenV30.pkg_vars =
     ["ErrInvalidCVSSHeader:error", "ErrInvalidMetricValue:error", "ErrOutOfBoundsScore:error", "ErrTooShortVector:error"] := by decide
+/-- the object is exactly its packed bytes: 6 `uint8` fields and nothing else (so Go's `==` on objects is equality of the
+    bytes the model works on — no cached or hidden state takes part in it), and only these methods have a pointer receiver
+    (every other method works on a copy and cannot change the object) -/
+theorem obj30 : GenV30.obj_fields = ["u0:uint8", "u1:uint8", "u2:uint8", "u3:uint8", "u4:uint8", "u5:uint8"] ∧ GenV30.obj_ptr_methods = ["Set"] := by decide
 end StateTie
